@@ -139,6 +139,7 @@ type PathSum struct {
 	asEvents     map[*ssa.Function]string // extra per-run event functions (summarised callees)
 	inlinePkgs   map[string]bool          // additional packages whose functions are inlined
 	alsoRelevant []string                 // additional substrings that make a branch condition a recorded predicate
+	trackLoads   bool                     // atomic Load methods become AtomicLoad(addr) events with their result symbol
 	trackRanges  bool                     // every map-range step becomes a RangeNext(map, element) event
 	trackLinks   bool                     // link getters become NodeRead events with their own result symbols (shape analysis)
 	roles        *psRoles
